@@ -1,4 +1,5 @@
 """Shared flow of C08 / C09: MBC.tla (leg A) + validation of recorded cartridge bus operations (leg B)."""
+import json
 import os
 import re
 
@@ -48,6 +49,33 @@ def run_mbc(run, fams, mode, rule):
     for kind, rom, ram, m in (MC_QUICK if run.tier == "quick" else MC_CONFIGS):
         run.mc(SPECDIR, "MBC_MC.tla", "MBC_MC.cfg", env={"KIND": kind, "ROMBANKS": rom, "RAMBANKS": ram, "MODE": m}, workers=4, timeout=1200,
                name="register state graph of %s under all control writes (%s)" % (kind, m))
+    # Leg C: one test per (register state, control write) of the "regs" graphs, emitted by TLC and replayed on the real controller
+    legc_cfgs = [("mbc1", 128, 4), ("mbc2", 16, 1), ("mbc3", 128, 4), ("mbc5", 512, 16)]
+    if run.tier == "thorough":
+        legc_cfgs += [("mbc1", 8, 1), ("mbc1", 64, 4), ("mbc3", 16, 1), ("mbc5", 64, 4), ("mbc2", 4, 1)]
+    mism = []
+    for kind, rom, ram in legc_cfgs:
+        out = run.mc(SPECDIR, "MBC_MC.tla", "MBC_MC_emit.cfg", env={"KIND": kind, "ROMBANKS": rom, "RAMBANKS": ram, "MODE": "regs", "EMIT": "1"}, workers=4, timeout=1200,
+                     name="leg C emission: %s %d/%d" % (kind, rom, ram), keep_output=True)
+        tin = os.path.join(run.tmp, "legc-%s-%d-%d.ndjson" % (kind, rom, ram))
+        tout = tin.replace(".ndjson", "-out.ndjson")
+        n = 0
+        with open(tin, "w") as fh:
+            pat = r'<<"T",\s*' + r',\s*'.join([r'(\d+)'] * 10) + r',\s*<<"(\w+)"(?:,\s*(\d+))?>>\s*>>'
+            for m in re.finditer(pat, out):
+                g = m.groups()
+                fh.write(json.dumps({"kind": kind, "rom": rom, "ram": ram, "st": [int(x) for x in g[0:6]], "a": int(g[6]), "v": int(g[7]), "low": int(g[8]), "high": int(g[9]),
+                                     "tgt": [g[10]] + ([int(g[11])] if g[11] else [])}) + "\n")
+                n += 1
+        if n < 500:
+            raise vlib.Infra("leg C: TLC emitted only %d tests for %s" % (n, kind))
+        p, _, infos_c = run.drive("mbc", "legc", "-in", tin, "-out", tout, env={"MODE": mode})
+        lc = infos_c[-1]
+        run.cov["legs"].append({"leg": "C", "kind": kind, "rom_banks": rom, "ram_banks": ram, "tests_replayed": lc["tests"], "mismatches": lc["mismatches"], "source_states": lc["source_states"]})
+        run.cov["events_validated"] += lc["tests"]
+        run.cov["evaluations"] += lc["tests"]
+        vlib.log("leg C %s %d/%d: %d spec transitions replayed on the real controller, %d mismatches" % (kind, rom, ram, lc["tests"], lc["mismatches"]))
+        mism += [json.loads(l) for l in open(tout)]
     files = []
     infos = []
     for fam in fams:
@@ -63,6 +91,15 @@ def run_mbc(run, fams, mode, rule):
     run.assumptions += ["ROM images carry a position-dependent pattern (machine.Sig / MBC!Sig) so a window read identifies the mapped page exactly",
                         "initial RAM contents are not pinned: the first read of a never-written cell defines it"]
     run.triage("mbc", files, accepted, ids, SPECDIR, "MBC_Trace.tla", "MBC_Trace.cfg", "MBC_TraceDiag.cfg", features, describe=describe, env={"MODE": mode})
+    rej = []
+    for m in mism[:40]:
+        t = m["test"]
+        rej.append({"id": "legc-%s" % t["kind"], "block": "mbc", "scenario": {"reset": [t["kind"], t["rom"], t["ram"], 0], "ev": m["script"]}, "index": len(m["script"]),
+                    "event": m["script"][-1] if m["script"] else None, "state": "%s, %d, %d, %d, %d, %d" % ("TRUE" if t["st"][0] else "FALSE", t["st"][1], t["st"][2], t["st"][3], t["st"][4], t["st"][5]),
+                    "legc": m, "what": "leg C: %s (%d ROM / %d RAM banks) from registers %s, write %02X to %04X: MBC.tla expects windows (%d, %d) and A005 -> %s; the real controller gave %s"
+                    % (t["kind"], t["rom"], t["ram"], t["st"], t["v"], t["a"], t["low"], t["high"], t["tgt"], m["got"])})
+    if rej:
+        run.handle_rejections(rej, features)
 
 
 def replay(run, path):
